@@ -385,6 +385,10 @@ pub struct BodyIndex {
     pub loops: Vec<LoopInfo>,
     /// closures in source order: (header start, body start, body end, body is a block)
     pub closures: Vec<(usize, usize, usize, bool)>,
+    /// `let [mut] v = <recv>.lock();` statements: (var, receiver text, stmt end, enclosing block close offset)
+    pub lock_lets: Vec<(String, String, usize, usize)>,
+    /// `drop(v)` statements: (var, stmt start)
+    pub drops: Vec<(String, usize)>,
 }
 pub struct LoopInfo {
     pub body_open: usize,
@@ -398,6 +402,40 @@ struct BodyVisitor<'a> {
     idx: BodyIndex,
 }
 impl<'a, 'ast> Visit<'ast> for BodyVisitor<'a> {
+    fn visit_block(&mut self, b: &'ast syn::Block) {
+        let mut close = self.src.span_range(b.brace_token.span.close()).0;
+        // a block that ends in a tail expression: the release obligation goes just before that expression
+        if let Some(syn::Stmt::Expr(e, None)) = b.stmts.last() {
+            let block_like = matches!(e, syn::Expr::If(_) | syn::Expr::Match(_) | syn::Expr::Block(_) | syn::Expr::ForLoop(_) | syn::Expr::While(_) | syn::Expr::Loop(_) | syn::Expr::Unsafe(_));
+            if !block_like {
+                close = self.src.range(e).0;
+            }
+        }
+        for st in &b.stmts {
+            if let syn::Stmt::Local(l) = st {
+                if let (syn::Pat::Ident(pi), Some(init)) = (&l.pat, &l.init) {
+                    if let syn::Expr::MethodCall(m) = &*init.expr {
+                        if m.method == "lock" && m.args.is_empty() {
+                            let recv = norm(self.src.slice(self.src.range(&*m.receiver)));
+                            self.idx.lock_lets.push((pi.ident.to_string(), recv, self.src.range(st).1, close));
+                        }
+                    }
+                }
+            }
+            if let syn::Stmt::Expr(syn::Expr::Call(c), _) = st {
+                if let syn::Expr::Path(p) = &*c.func {
+                    if p.path.is_ident("drop") && c.args.len() == 1 {
+                        if let syn::Expr::Path(a) = &c.args[0] {
+                            if let Some(id) = a.path.get_ident() {
+                                self.idx.drops.push((id.to_string(), self.src.range(st).0));
+                            }
+                        }
+                    }
+                }
+            }
+        }
+        syn::visit::visit_block(self, b);
+    }
     fn visit_stmt(&mut self, s: &'ast syn::Stmt) {
         let r = self.src.range(s);
         self.idx.stmts.push((r, norm(self.src.slice(r))));
@@ -674,7 +712,7 @@ fn find_anchor_opt(idx: &BodyIndex, anchor: &str, fname: &str, missing: &mut Vec
 }
 
 fn fn_edits(src: &Src, take: &Take, sig: &syn::Signature, block: &syn::Block, fname: &str, edits: &mut Vec<Edit>, missing: &mut Vec<String>) -> Result<(), String> {
-    let mut bv = BodyVisitor { src, idx: BodyIndex { stmts: vec![], loops: vec![], closures: vec![] } };
+    let mut bv = BodyVisitor { src, idx: BodyIndex { stmts: vec![], loops: vec![], closures: vec![], lock_lets: vec![], drops: vec![] } };
     bv.visit_block(block);
     let idx = bv.idx;
     let body_open = src.span_range(block.brace_token.span.open()).0;
@@ -759,6 +797,27 @@ fn fn_edits(src: &Src, take: &Take, sig: &syn::Signature, block: &syn::Block, fn
                 if let Some(r) = find_anchor_opt(&idx, anchor, fname, missing)? {
                     edits.push(Edit { start: r.0, end: r.1, text: text.trim_end().to_string(), rule: "R8-replace-stmt", label: Some(format!("{}::r8", fname)), prio: 0 });
                     last_replaced = Some(r);
+                }
+            }
+            Sub::LockRelease(recv_sub, text) => {
+                let hits: Vec<_> = idx.lock_lets.iter().filter(|(_, r, _, _)| r.contains(recv_sub.as_str())).collect();
+                if hits.is_empty() {
+                    return Err(format!("{}: no `let g = ….{}.lock();` statement any more: the critical section carrying release obligations is gone (lost anchor)", fname, recv_sub));
+                }
+                for (var, _, stmt_end, block_close) in hits {
+                    let g = format!("vx_old_{}", var);
+                    edits.push(Edit { start: *stmt_end, end: *stmt_end, text: format!("\nlet ghost {} = *{};\n", g, var), rule: "R9-lock-release", label: None, prio: 0 });
+                    let body = text.replace("$old", &g).replace("$new", &format!("(*{})", var));
+                    let mut dropped = false;
+                    for (dv, at) in idx.drops.iter() {
+                        if dv == var && *at > *stmt_end && *at < *block_close {
+                            push_hint(edits, *at, &format!("proof {{\n{}\n}}", body.trim_end()), fname, false);
+                            dropped = true;
+                        }
+                    }
+                    if !dropped {
+                        push_hint(edits, *block_close, &format!("proof {{\n{}\n}}", body.trim_end()), fname, true);
+                    }
                 }
             }
             Sub::ReplacedText(exp) => {
